@@ -162,16 +162,20 @@ func c07Gen(r *Rand, tier string, i int) Scenario {
 		}
 	}
 	sc.Color = r.Bool(0.3)
-	// NOT generated (kept for manual experiments): while the client prompts, the
-	// stdout logger's log() waits on a channel with its sync.Mutex locked, and the
-	// other connections' goroutines block on that mutex. A goroutine blocked on a
-	// sync.Mutex is not "durably blocked" for testing/synctest, so the bubble never
-	// becomes quiescent and the controller cannot run (watchdog, exit 2). DESIGN §7.
-	if false && nh > 1 && r.Bool(0.2) {
+	// unknown hosts: needs the cooperative mutex of the simulator (the stdout
+	// logger waits for the resume signal with its mutex locked, DESIGN §2.2)
+	if nh > 1 && r.Bool(0.25) {
 		for h := 1; h < nh; h++ { // server 0 always stays known
 			if r.Bool(0.5) {
 				sc.Unknown = append(sc.Unknown, h)
 			}
+		}
+		if len(sc.Unknown) > 0 {
+			// slow readers: the known servers are still streaming when the prompt
+			// appears (2 s after the first unknown host) and when it is answered
+			sc.Stalls = append(sc.Stalls, StallSpec{Name: "reader.perline", Site: "io/fs/readfilelcontext.go", Suffix: "/ranged", From: 0, To: -1, DurMs: PickOf(r, 20, 50, 100)})
+			// and the user takes a while to answer: records arrive during the pause
+			sc.Stalls = append(sc.Stalls, StallSpec{Name: "user.thinks", Site: "user/answers", Suffix: "", From: 0, To: -1, DurMs: PickOf(r, 300, 1000, 2500)})
 		}
 	}
 	sc.LogLevel = PickOf(r, "", "", "debug", "trace")
